@@ -904,6 +904,13 @@ class CeiloChunk(AbstractChunk):
         # Get ready to add the layering info to the data
         self.data.loc[:, 'layer_id'] = None
 
+        # The ids of sub-layers are built as id_offset + 10*ind + sub_layer_id. Groups that do not
+        # get split keep their group id as layer id: the offset must thus be larger than any
+        # group id, to avoid assigning the same layer id to hits from different groups.
+        id_offset = 100
+        if len(self.groups) > 0:
+            id_offset = max(id_offset, int(self.groups['cluster_id'].max()) + 1)
+
         # Loop through every group, and look for sub-layers in it ...
         for ind in range(len(self.groups)):
 
@@ -958,7 +965,7 @@ class CeiloChunk(AbstractChunk):
             if ncomp > 1:
                 self.data.loc[self.data.loc[:, 'group_id'] ==
                               self._groups.at[ind, 'cluster_id'], 'layer_id'] = \
-                    100+10*ind+sub_layers_id
+                    id_offset+10*ind+sub_layers_id
 
         # Deal with the points that have not been assigned a layer id yet
         to_fill = self.data['layer_id'].isna()
